@@ -11,6 +11,8 @@ UNDECIDED = ('TimedOnce', 'TimedHistorically', 'TimedSince', 'TimedAlways', 'Tim
 
 
 def check(ix, rep):
+    from sa.rules import round11 as _r11
+    rep.floor('functions of the monitors scanned for rounded bounds', _r11.check_no_rounding(ix, rep), 50)
     mon = {m.kind: m for m in M.standard_monitors(ix)}['dense-offline']
     # 1. the merge kernel over the finite order domain
     nord, narms, used = ordkernel.check_kernel(ix, rep, OFF_KERNEL)
